@@ -43,6 +43,33 @@ pub mod iter {
     pub open spec fn smap<T, U>(s: Seq<T>, g: spec_fn(T) -> U) -> Seq<U> { Seq::new(s.len(), |i: int| g(s[i])) }
 
     pub trait FromIter<T>: Sized { spec fn from_seq(&self, s: Seq<T>) -> bool; }
+    /// something `flat_map` can flatten
+    pub trait IterLike<U> { spec fn iter_items(&self) -> Seq<U>; spec fn iter_endless(&self) -> bool; }
+    impl<U> IterLike<U> for Iter<U> {
+        open spec fn iter_items(&self) -> Seq<U> { self@.items }
+        open spec fn iter_endless(&self) -> bool { self@.endless }
+    }
+    /// concatenation of a sequence of sequences
+    pub open spec fn flat<U>(ss: Seq<Seq<U>>) -> Seq<U> decreases ss.len() {
+        if ss.len() == 0 { Seq::empty() } else { flat(ss.drop_last()) + ss.last() }
+    }
+    /// filter with a spec predicate
+    pub open spec fn filt<T>(s: Seq<T>, p: spec_fn(T) -> bool) -> Seq<T> decreases s.len() {
+        if s.len() == 0 { Seq::empty() }
+        else if p(s.last()) { filt(s.drop_last(), p).push(s.last()) }
+        else { filt(s.drop_last(), p) }
+    }
+    pub proof fn lemma_filt<T>(s: Seq<T>, p: spec_fn(T) -> bool)
+        ensures
+            filt(s, p).len() <= s.len(),
+            forall|i: int| 0 <= i < filt(s, p).len() ==> p(#[trigger] filt(s, p)[i]),
+        decreases s.len()
+    {
+        if s.len() > 0 { lemma_filt(s.drop_last(), p); }
+    }
+    /// std::iter::once
+    #[verifier::external_body]
+    pub fn once<T>(t: T) -> (r: Iter<T>) ensures r@.items == seq![t], !r@.endless { unimplemented!() }
     impl<T> FromIter<T> for Vec<T> { open spec fn from_seq(&self, s: Seq<T>) -> bool { self@ == s } }
     impl<T> FromIter<T> for crate::shims::std::collections::HashSet<T> {
         open spec fn from_seq(&self, s: Seq<T>) -> bool { crate::shims::std::collections::hashset_from(*self, s) }
@@ -51,7 +78,7 @@ pub mod iter {
     impl<T> Iter<T> {
         #[verifier::external_body]
         pub fn filter_map<U, F: FnMut(T) -> Option<U>>(self, f: F) -> (r: Iter<U>)
-            requires forall|t: T| call_requires(f, (t,)),
+            requires forall|i: int| 0 <= i < self@.items.len() ==> call_requires(f, (#[trigger] self@.items[i],)),
             ensures
                 r@.endless == self@.endless,
                 forall|g: spec_fn(T) -> Option<U>| (forall|x: T, o: Option<U>| #[trigger] call_ensures(f, (x,), o) ==> o == g(x)) ==> r@.items == #[trigger] fm(self@.items, g),
@@ -79,6 +106,9 @@ pub mod iter {
             ensures
                 r@.endless == self@.endless,
                 forall|g: spec_fn(T) -> U| (forall|x: T, o: U| #[trigger] call_ensures(f, (x,), o) ==> o == g(x)) ==> r@.items == #[trigger] smap(self@.items, g),
+                // relational form (the closure's result need not be a function of its argument)
+                r@.items.len() == self@.items.len(),
+                forall|i: int| 0 <= i < self@.items.len() ==> call_ensures(f, (self@.items[i],), #[trigger] r@.items[i]),
         { unimplemented!() }
         #[verifier::external_body]
         pub fn rev(self) -> (r: Iter<T>)
@@ -93,7 +123,21 @@ pub mod iter {
         // ---- adapters without a contract (results unconstrained): present so that code using
         // them still type-checks; nothing can be proved about what they return
         #[verifier::external_body]
-        pub fn filter<P: FnMut(&T) -> bool>(self, p: P) -> (r: Iter<T>) requires forall|t: &T| call_requires(p, (t,)) { unimplemented!() }
+        pub fn filter<P: FnMut(&T) -> bool>(self, p: P) -> (r: Iter<T>)
+            requires forall|t: &T| call_requires(p, (t,)),
+            ensures
+                r@.endless == self@.endless,
+                forall|g: spec_fn(T) -> bool| (forall|x: &T, o: bool| #[trigger] call_ensures(p, (x,), o) ==> o == g(*x)) ==> r@.items == #[trigger] filt(self@.items, g),
+                // relational form: the predicate answered `true` for everything that is yielded
+                forall|i: int| 0 <= i < r@.items.len() ==> call_ensures(p, (&#[trigger] r@.items[i],), true),
+        { unimplemented!() }
+        #[verifier::external_body]
+        pub fn flat_map<U, I: IterLike<U>, F: FnMut(T) -> I>(self, f: F) -> (r: Iter<U>)
+            requires forall|t: T| call_requires(f, (t,)),
+            ensures
+                forall|g: spec_fn(T) -> Seq<U>| (forall|x: T, o: I| #[trigger] call_ensures(f, (x,), o) ==> o.iter_items() == g(x) && !o.iter_endless()) ==>
+                    r@.items == #[trigger] flat(smap(self@.items, g)) && r@.endless == self@.endless,
+        { unimplemented!() }
         #[verifier::external_body]
         pub fn any<P: FnMut(T) -> bool>(&mut self, p: P) -> (r: bool) requires forall|t: T| call_requires(p, (t,)) { unimplemented!() }
         #[verifier::external_body]
